@@ -84,6 +84,12 @@ def plan(tier, seed):
         sh.append(['NAMES', lo, hi])
     for lo, hi in chunks(82, 4):
         sh.append(['TOWER', lo, hi])
+    for lo, hi in chunks(82 + 72, 6):
+        sh.append(['REPEAT', lo, hi])
+    sh.append(['RESERVED'])
+    for shape in ('chain', 'ring'):
+        for N in ((1500, 4000) if tier == 'quick' else (1500, 4000, 9000)):
+            sh.append(['LONG', shape, N])
     if tier == 'quick':
         for lo, hi in chunks(3836, 48):
             sh.append(['Brep', lo, hi])
@@ -117,6 +123,57 @@ def rename_atoms(f, m):
     return (f[0],) + tuple(rename_atoms(x, m) for x in f[1:])
 
 
+def repeat_forms():
+    """One formula in which a compound subformula occurs, occurs again, and is followed by a different
+    compound one, all under operators of the restricted syntax (or, EX, EU, EG): every ordered pair of a
+    pool of derived-operator subformulas x a few shapes."""
+    P, Q = spaces.P, spaces.Q
+    NQ = ('not', Q)
+    pool = [('A', ('G', P)), ('A', ('F', Q)), ('E', ('F', P)), ('A', ('X', Q)), ('A', ('U', P, Q)),
+            ('E', ('R', P, Q)), ('A', ('R', Q, P)), ('and', P, NQ), ('imp', P, Q), ('A', ('G', NQ))]
+    out = []
+    for a in pool:
+        for b in pool:
+            if a == b:
+                continue
+            out += [('or', a, a, b), ('or', a, b, a, b), ('E', ('U', a, ('E', ('U', a, b)))),
+                    ('E', ('X', ('or', a, a, b))), ('E', ('G', ('or', a, a, b))),
+                    ('or', ('E', ('X', a)), ('E', ('X', a)), ('E', ('G', b)))]
+    return out
+
+
+def long_structure(shape, N):
+    """chain: 0 -> 1 -> ... -> N-1 -> N-1, p on all but the last state, q on the last;
+    ring: i -> i+1 mod N, q on state 0, p elsewhere."""
+    if shape == 'chain':
+        succ = [(i + 1,) for i in range(N - 1)] + [(N - 1,)]
+        lab = [('p',)] * (N - 1) + [('q',)]
+    else:
+        succ = [((i + 1) % N,) for i in range(N)]
+        lab = [('q',)] + [('p',)] * (N - 1)
+    return spaces.K(N, succ, lab)
+
+
+def long_cases(shape):
+    """(formula, closed form of the satisfying set as a function of N); validated against the reference
+    evaluator on small N before use."""
+    P, Q = spaces.P, spaces.Q
+    NP, NQ = ('not', P), ('not', Q)
+    ALL = lambda N: set(range(N))
+    NONE = lambda N: set()
+    if shape == 'chain':
+        return [(('E', ('F', Q)), ALL), (('A', ('G', NQ)), NONE), (('E', ('U', P, Q)), ALL),
+                (('A', ('U', P, Q)), ALL), (('A', ('R', Q, NP)), lambda N: {N - 1}), (('E', ('G', P)), NONE),
+                (('A', ('F', Q)), ALL), (('E', ('X', Q)), lambda N: {N - 2, N - 1}),
+                (('A', ('X', P)), lambda N: set(range(N - 2))), (('A', ('G', ('imp', P, ('A', ('F', Q))))), ALL),
+                (('E', ('G', NQ)), NONE), (('A', ('G', ('E', ('F', Q)))), ALL), (('A', ('R', NP, NQ)), NONE),
+                (('E', ('G', Q)), lambda N: {N - 1}), (('E', ('R', Q, P)), NONE)]
+    return [(('E', ('F', Q)), ALL), (('E', ('G', P)), NONE), (('A', ('F', Q)), ALL), (('A', ('U', P, Q)), ALL),
+            (('E', ('X', Q)), lambda N: {N - 1}), (('A', ('G', ('E', ('F', Q)))), ALL),
+            (('E', ('G', ('or', P, Q))), ALL), (('A', ('G', ('A', ('F', P)))), ALL), (('A', ('G', P)), NONE),
+            (('E', ('U', P, ('and', Q, ('E', ('X', P))))), ALL), (('A', ('R', Q, P)), NONE)]
+
+
 def check_one(k, Kl, f, acc, audit=False, first=False):
     ref = ctl_sat(k, f)
     res = as_state_set(call(lib.CTL.modelcheck, Kl, lib.build(f, lib.CTL)))
@@ -142,6 +199,73 @@ def check_one(k, Kl, f, acc, audit=False, first=False):
 
 def run_shard(shard, tier, seed, acc):
     kind = shard[0]
+    if kind == 'REPEAT':
+        forms = repeat_forms()
+        ks = (spaces.kripke_reps(1) + spaces.kripke_reps(2) + spaces.kripke_reps(3)[(seed % 53)::53])[shard[1]:shard[2]]
+        for k in ks:
+            Kl = lib.to_kripke(k)
+            for j, f in enumerate(forms):
+                if j % 64 == 0 and deadline_passed():
+                    acc.capped()
+                    return
+                check_one(k, Kl, f, acc)
+        return
+    if kind == 'RESERVED':
+        # atoms whose name is the printed form of a Boolean constant (built through the API or written as
+        # the quoted atom "true"): known finding D16 when the answer is the one obtained by reading the
+        # atom as that constant, a violation otherwise
+        for name, const in (('true', ('t',)), ('false', ('f',))):
+            a = ('ap', name)
+            forms = [f for s_ in (0, 1, 2) for f in spaces.ctl_by_size(s_, (a, spaces.P))
+                     if name in spaces.fstr(f)]
+            forms += [('or', a, ('not', ('E', ('F', spaces.P))), a), ('and', ('A', ('G', spaces.P)), a, ('t',)),
+                      ('or', ('f',), a), ('and', ('t',), ('not', a))]
+
+            def subst(f):
+                if f == a:
+                    return const
+                if f[0] in ('ap', 't', 'f'):
+                    return f
+                return (f[0],) + tuple(subst(x) for x in f[1:])
+            for k0 in spaces.kripke_reps(2, ('p',)):
+                for labelled in ((), (0,)):
+                    k = spaces.K(k0.n, k0.succ, [set(k0.lab[i]) | ({name} if i in labelled else set())
+                                                 for i in range(k0.n)])
+                    Kl = lib.to_kripke(k)
+                    for f in forms:
+                        ref = ctl_sat(k, f)
+                        r = call(lib.CTL.modelcheck, Kl, lib.build(f, lib.CTL))
+                        acc.ev(1, 1)
+                        got = frozenset(r[1]) if r[0] == 'ok' and isinstance(r[1], set) else None
+                        if got == frozenset(ref):
+                            continue
+                        case = kcase(k, f, reserved_atom=name)
+                        if got is not None and got == frozenset(ctl_sat(k, subst(f))):
+                            acc.finding('D16', case, sorted(ref), sorted(got))
+                        else:
+                            acc.violation('wrong-answer', case, sorted(ref), r[1:] if r[0] != 'ok' else sorted(got))
+        return
+    if kind == 'LONG':
+        shape, N = shard[1], shard[2]
+        cases = long_cases(shape)
+        for n_small in (3, 4, 7):
+            ks = long_structure(shape, n_small)
+            for f, closed in cases:
+                if ctl_sat(ks, f) != frozenset(closed(n_small)) and set(ctl_sat(ks, f)) != closed(n_small):
+                    acc.harness_error('closed form for %r on %s(%d) disagrees with the reference' % (f, shape, n_small))
+                    return
+        k = long_structure(shape, N)
+        Kl = lib.to_kripke(k)
+        for f, closed in cases:
+            want = closed(N)
+            res = call(lib.CTL.modelcheck, Kl, lib.build(f, lib.CTL))
+            acc.ev(1, 1 if 0 < len(want) < N else 0)
+            if res[0] != 'ok' or not isinstance(res[1], set) or res[1] != want:
+                got = res[1:] if res[0] != 'ok' else ('%d states' % len(res[1]), sorted(res[1])[:5])
+                acc.violation('wrong-answer-on-long-structure',
+                              {'shape': shape, 'N': N, 'f': spaces.to_jsonable(f), 'f_str': spaces.fstr(f)},
+                              ('%d states' % len(want), sorted(want)[:5]), got)
+        return
     if kind == 'A':
         k = _ks2()[shard[1]]
         Kl = lib.to_kripke(k)
@@ -352,8 +476,19 @@ def run_shard(shard, tier, seed, acc):
 
 def replay(art):
     case = art['case']
+    if 'shape' in case:
+        f = spaces.from_jsonable(case['f'])
+        closed = [c for g, c in long_cases(case['shape']) if g == f][0]
+        res = call(lib.CTL.modelcheck, lib.to_kripke(long_structure(case['shape'], case['N'])), lib.build(f, lib.CTL))
+        return {'violates': res[0] != 'ok' or res[1] != closed(case['N']), 'got': res[:2] if res[0] != 'ok' else len(res[1])}
     k = spaces.K.from_json(case['k'])
     Kl = lib.to_kripke(k)
+    if case.get('reserved_atom'):
+        from ..runner import Acc
+        acc = Acc()
+        run_shard(['RESERVED'], 'quick', 0, acc)
+        fid = 'D16' if acc.d['findings'] else None
+        return {'violates': acc.d['nviol'] > 0 or fid is not None, 'finding': None if acc.d['nviol'] else fid}
     if art['kind'] == 'structure-modified':
         snap = lib.snapshot_kripke(Kl)
         for size in (0, 1, 2):
